@@ -347,6 +347,8 @@ class Lib:
             I.ctx.note_assumption(A_RANGE)
             return SV(z3.If(s > 0, z3.And(x >= a, x < b, (x - a) % s == 0),
                             z3.And(x <= a, x > b, (a - x) % (-s) == 0)))
+        if isinstance(container, LibObj) and container.kind == "symset":
+            return I.contains(tuple(container.fields["items"]), item, node)
         if isinstance(container, str) and isinstance(item, str):
             return item in container
         if isinstance(container, (str, SStr)) and isinstance(item, (str, SStr)):
@@ -758,6 +760,9 @@ class Lib:
         if not a:
             return set()
         items = I.iterate(a[0], n)
+        if any(isinstance(x, (SV,)) for x in items) and not any(isinstance(x, (Obj, SStr)) for x in items):
+            # a set of symbolic scalars: only membership tests are supported (order and size are not modelled)
+            return LibObj("symset", items=list(items))
         if any(isinstance(x, (SV, Obj, SStr)) for x in items):
             raise Unsupported("set() of symbolic members")
         return set(items)
